@@ -143,19 +143,22 @@ CLAIMS['C17'] = dict(
          "bridge lemma G2 (27 images suffice for widths > cutoff); A2 reals.",
     technique='contract-based deductive verification (cutoff rule and both pair loops under invariants, z3) + bounded comparison with an independent minimum-image rule')
 CLAIMS['C19'] = dict(
-    category='other',
-    text="Proved for all inputs: helpers.typekey returns the tuple or its reverse, is reversal invariant and two tuples have the same key iff "
-         "they are equal up to reversal (arities 2-4, relational obligations over the product of the path sets of three symbolic runs of "
-         "the real function); rough_uff.delete_if_all_in_set removes exactly the tuples wholly inside the exclusion set (loop invariant, "
-         "widths 2-4); rough_uff.assign_bond_types and assign_angle_types, for term lists of any length: two terms get the same type number "
-         "exactly when their UFF type sequences agree up to reversal, the coefficient line of a term's type is the one computed from the "
-         "term's own sequence, type numbers are dense (modular over the contracts of typekey, bond_params / angle_params, angle2lammpsdat). "
-         "Enumeration completeness of calc_angles / calc_dihedrals (networkx), dihedral typing (torsion counts, dropping of undefined "
-         "torsions), renaming / permutation invariance and the retyping tables are only checked with a stated bound: "
-         "all labelled trees up to 5 nodes, rings, ring assemblies, a metal node, 3 type assignments, renamings, all 221 UFF types.",
-    note="Level 'other': networkx traversal is not modelled, so the enumeration clauses are bounded. Assumed: list(dict.fromkeys(xs).keys()) = distinct "
-         "elements in first-occurrence order, list.index. Known finding: UFF types Du and Lw6+3 have no mass entry (retype raises).",
-    technique='contract-based deductive verification of the canonical key, the exclusion filter and bond / angle typing (z3) + bounded graph enumeration')
+    category='proof',
+    text="Proved for all inputs on the real code: helpers.typekey returns the tuple or its reverse, is reversal invariant and two tuples have the "
+         "same key iff they are equal up to reversal (arities 2-4); rough_uff.delete_if_all_in_set removes exactly the tuples wholly inside the "
+         "exclusion set (loop invariant, widths 2-4); rough_uff.calc_angles and calc_dihedrals, for bond lists of any length (loops over nodes / "
+         "edges under invariants with ghost rows): every angle (a, n, b) joins two different atoms bonded to n, every pair of distinct "
+         "neighbours of every atom is listed, none twice forwards or backwards; every dihedral is a bonded chain i-j-k-l with i != k and l != j, "
+         "every chain around every bond is listed, none twice; rough_uff.assign_bond_types and assign_angle_types, for term lists of any "
+         "length: two terms get the same type number exactly when their UFF type sequences agree up to reversal, the coefficient line of a "
+         "term's type is the one computed from the term's own sequence, type numbers are dense (modular over the contracts of typekey, "
+         "bond_params / angle_params, angle2lammpsdat). Dihedral typing (torsion counts, dropping of undefined torsions), renaming / "
+         "permutation invariance and the retyping tables are only checked with a stated bound: all labelled trees up to 5 nodes, rings, "
+         "ring assemblies, a metal node, graphs mixing kept and dropped torsions, 4 type assignments, renamings with reversed terms, all 221 UFF types.",
+    note="Assumed contracts: networkx Graph (nodes = endpoints, adj / neighbors = the distinct bonded atoms, edges = every bond once), itertools.combinations, "
+         "list.remove, double comprehension, list(dict.fromkeys(xs).keys()) + list.index, list += list. assign_dihedral_types is not under contract. "
+         "Known finding: UFF types Du and Lw6+3 have no mass entry (retype raises).",
+    technique='contract-based deductive verification (loop invariants with ghost state for the enumerations, modular typing proofs, z3) + bounded graph enumeration')
 CLAIMS['C12'] = dict(
     category='proof',
     text="Atoms.replicate is executed symbolically for an arbitrary atom, an arbitrary 3x3 cell and symbolic positive factors, with copy / "
